@@ -281,10 +281,12 @@ bool FileLogger::rotate(bool force)
 #endif
 	if (_rotnum > 0 && (!_flags.has(append) || force))
 	{
+		// never keep (or index) more than max_rotation generations
+		const unsigned rotnum(std::min(_rotnum, static_cast<unsigned>(max_rotation)));
 		vector<string> rlst;
 		rlst.push_back(thislFile);
 
-		for (unsigned ii(0); ii < _rotnum && ii < max_rotation; ++ii)
+		for (unsigned ii(0); ii < rotnum; ++ii)
 		{
 			ostringstream ostr;
 			ostr << _pathname << '.' << (ii + 1);
@@ -293,7 +295,7 @@ bool FileLogger::rotate(bool force)
 			rlst.push_back(ostr.str());
 		}
 
-		for (unsigned ii(_rotnum); ii; --ii)
+		for (unsigned ii(rotnum); ii; --ii)
 			rename (rlst[ii - 1].c_str(), rlst[ii].c_str());
 	}
 
